@@ -1,8 +1,10 @@
 package main
 
 import (
+	"bytes"
 	"go/ast"
 	"go/parser"
+	"go/printer"
 	"go/token"
 	"os"
 	"path/filepath"
@@ -91,4 +93,66 @@ func factsC11() {
 		}
 	}
 	addStrList("c11BackendsMatchNeutralised", bm, "backendsMatch: the fields of the copy of the first backend overwritten with the second one's before DeepEqual")
+	// auth proxy ports (Model/C11AuthP): the three functions of pkg/haproxy/types/frontend.go that touch
+	// AuthProxy.BindList, statement by statement (comments dropped, blanks collapsed)
+	fr := "pkg/haproxy/types/frontend.go"
+	addStrList("c11AcquireAuthBackendName", c11Body(methodDecl(fr, "Frontend", "AcquireAuthBackendName")),
+		"Frontend.AcquireAuthBackendName: the statements of the body, nested blocks flattened in source order")
+	addStrList("c11RemoveAuthBackendExcept", c11Body(methodDecl(fr, "Frontend", "RemoveAuthBackendExcept")),
+		"Frontend.RemoveAuthBackendExcept: the statements of the body")
+	addStrList("c11RemoveAuthBackendByTarget", c11Body(methodDecl(fr, "Frontend", "RemoveAuthBackendByTarget")),
+		"Frontend.RemoveAuthBackendByTarget: the statements of the body")
+}
+
+// c11Body renders a function body as a flat list: simple statements printed by go/printer (blanks collapsed),
+// `for` / `if` as a header line followed by their body and a closing `end`
+func c11Body(fd *ast.FuncDecl) []string {
+	var res []string
+	pr := func(n ast.Node) string {
+		var b bytes.Buffer
+		_ = printer.Fprint(&b, token.NewFileSet(), n)
+		return strings.Join(strings.Fields(b.String()), " ")
+	}
+	var walk func(list []ast.Stmt)
+	walk = func(list []ast.Stmt) {
+		for _, st := range list {
+			switch v := st.(type) {
+			case *ast.RangeStmt:
+				k, val := "_", "_"
+				if v.Key != nil {
+					k = pr(v.Key)
+				}
+				if v.Value != nil {
+					val = pr(v.Value)
+				}
+				res = append(res, "for "+k+", "+val+" := range "+pr(v.X))
+				walk(v.Body.List)
+				res = append(res, "end")
+			case *ast.ForStmt:
+				res = append(res, "for ...")
+				walk(v.Body.List)
+				res = append(res, "end")
+			case *ast.IfStmt:
+				h := "if "
+				if v.Init != nil {
+					h += pr(v.Init) + "; "
+				}
+				res = append(res, h+pr(v.Cond))
+				walk(v.Body.List)
+				if v.Else != nil {
+					res = append(res, "else")
+					if blk, ok := v.Else.(*ast.BlockStmt); ok {
+						walk(blk.List)
+					} else {
+						walk([]ast.Stmt{v.Else})
+					}
+				}
+				res = append(res, "end")
+			default:
+				res = append(res, pr(st))
+			}
+		}
+	}
+	walk(fd.Body.List)
+	return res
 }
